@@ -38,6 +38,89 @@ def cases(ctx, part, invariants=('Emit', 'LoopProgress'), expect=None):
     return [r[0] for r in rows]
 
 
+def scan_cases(ctx, quick, only=None):
+    """Grammar part "scan": list imports of keys and certificates over every
+    layout (item before, last item, what follows the last line): a value or
+    KeyImportError within bounded CPU time (ScanProgress)."""
+    import signal
+    import asyncssh
+    if only:                            # --replay of one recorded case
+        rows = [only]
+    else:
+        rows = cases(ctx, 'scan', invariants=('Emit', 'ScanProgress'))
+        ctx.require(len(rows) >= 1000, f'scan cases: {len(rows)}')
+        cases(ctx, 'scan_zero_end', invariants=('ScanProgress',),
+              expect='ScanProgress')
+    key = asyncssh.generate_private_key('ssh-ed25519')
+    cert = key.generate_user_certificate(key, 'user', principals=['user'])
+    items = {'pubkey': key.export_public_key('openssh'),
+             'cert': cert.export_certificate('openssh'),
+             'garbage': b'this is not a key', 'blank': b'',
+             'comment': b'# ssh-ed25519 AAAA',
+             'pem': key.export_public_key('pkcs8-pem'),
+             'rfc4716': key.export_public_key('rfc4716'),
+             'privpem': key.export_private_key('pkcs8-pem')}
+    items = {k: v.rstrip(b'\n') for k, v in items.items()}
+    ends = {'lf': b'\n', 'crlf': b'\r\n', 'none': b'', 'space': b' '}
+    os.makedirs(tlc.WORK, exist_ok=True)
+    path = os.path.join(tlc.WORK, f'scan_{os.getpid()}.txt')
+    funcs = {'pubkeys': lambda d: asyncssh.read_public_key_list(path),
+             'certs': lambda d: asyncssh.read_certificate_list(path),
+             'certs_data': asyncssh.load_certificates,
+             'privkeys': lambda d: asyncssh.read_private_key_list(path)}
+
+    class Spin(BaseException):
+        pass
+
+    def alarm(*_):
+        raise Spin()
+
+    outcomes = {}
+    nbad = 0
+    old = signal.signal(signal.SIGVTALRM, alarm)
+    try:
+        for f, i1, i2, e in sorted(map(tuple, rows)):
+            data = (items[i1] + b'\n' if i1 != '-' else b'') + items[i2] + \
+                ends[e]
+            with open(path, 'wb') as fh:
+                fh.write(data)
+            signal.setitimer(signal.ITIMER_VIRTUAL, 3)
+            try:
+                out = ('value', len(funcs[f](data)))
+            except Spin:
+                out = ('spin',)
+            except asyncssh.KeyImportError:
+                out = ('KeyImportError',)
+            except Exception as exc:    # pylint: disable=broad-except
+                out = ('undocumented', type(exc).__name__)
+            finally:
+                signal.setitimer(signal.ITIMER_VIRTUAL, 0)
+            ctx.count(('scan', f, i1, i2, e), nontrivial=True)
+            outcomes[out[0]] = outcomes.get(out[0], 0) + 1
+            if out[0] in ('spin', 'undocumented'):
+                nbad += 1
+                what = ('did not return within 3 s of CPU time' if
+                        out[0] == 'spin' else f'raised {out[1]}')
+                ctx.violation({'module': 'Grammar', 'part': 'scan', 'func': f,
+                               'items': [i1, i2], 'end': e,
+                               'outcome': out[0]},
+                              f'list import {f} of a text with items '
+                              f'[{i1}, {i2}] whose last line ends with '
+                              f'{e!r}: {what}',
+                              replay={'kind': 'scan', 'func': f, 'i1': i1,
+                                      'i2': i2, 'end': e})
+                if nbad >= 12:          # every spin costs the full watchdog
+                    break
+    finally:
+        signal.signal(signal.SIGVTALRM, old)
+        if os.path.exists(path):
+            os.remove(path)
+    ctx.coverage['scan_outcomes'] = outcomes
+    ctx.require(only or nbad >= 12 or outcomes.get('value', 0) > 100 and
+                outcomes.get('KeyImportError', 0) + outcomes.get('value', 0)
+                > 500, f'scan part vacuous: {outcomes}')
+
+
 def fields_of_spec():
     """The Fields table of the spec, parsed from the module text so that the
     templates of the driver are checked against it."""
@@ -279,6 +362,7 @@ def main(ctx):
     # C12 / C14) ----
     from harness.drivers import sftp_copydata
     sftp_copydata.copy_data_work_cases(ctx, quick)
+    scan_cases(ctx, quick)
     ctx.assumptions += [
         'work bounds: 3 s watchdog per input, <= 2000 loop iterations and '
         '<= 4096 + 64*len(input) output bytes per packet (generous: only '
